@@ -66,6 +66,7 @@ def check_patches(prog, r):
         fv = view(prog, k)
         r.analysed(fv.name)
         rend = Renderer(fv, depth=14)
+        rend_n = Renderer(fv, depth=14, through_names=True)       # a position handed to a (spliced) helper keeps its identity
         ls = [l for l, nm in fv.local_name.items() if nm == posv]
         if not ls:
             r.fail(fv.name, "no-position:" + posv, "the length position `%s` is no longer recorded" % posv, fv.loc())
@@ -73,7 +74,7 @@ def check_patches(prog, r):
         patches = []
         for bi, t in fv.calls(re.compile(r".*IndexMut::index_mut$")):
             e = rend.operand(t["args"][1], 14)
-            if posv in expr_vars(e):
+            if posv in expr_vars(e) or posv in expr_vars(rend_n.operand(t["args"][1], 14)):
                 patches.append(bi)
         defs = [bi for l in ls for bi, si, s in fv.defs().get(l, []) if bi in fv.live]
         errs = [b for b, si_, s_ in fv.aggregates(re.compile(r".*Result"), "Err")] + [b for b, t_ in fv.calls(re.compile(r".*FromResidual::from_residual$"))]
@@ -257,7 +258,9 @@ def check_peer_index(prog, r):
     r.analysed(prog.name(dk[0]))
     lps = loops(fv)
     lens = [b for b, t in fv.calls(re.compile(r".*Vec::<T(, A)?>::len$")) if "PeerEntry" in t["f"].get("ga", "")]
+    # where a peer's index is stored: `entry(addr).or_insert_with(..)` or a plain `insert(addr, idx)` into the address -> u16 map
     users = [b for b, t in fv.calls(re.compile(r".*Entry::<.*>::(or_insert_with|or_insert)$")) if "u16" in t["f"].get("ga", "")]
+    users += [b for b, t in fv.calls(re.compile(r".*HashMap::<K, V, S(, A)?>::insert$")) if re.search(r"\bu16\b", t["f"].get("ga", "")) and "IpAddr" in t["f"].get("ga", "")]
     if not lens or not users:
         r.unanalysable("dump_table: peers.len() reads %d, peer_index inserts %d" % (len(lens), len(users)), fv.loc())
         return
